@@ -156,19 +156,31 @@ func (f *fnCtx) stmt(s ast.Stmt, rest func()) {
 			f.ret(f.namedVals())
 			return
 		}
-		if len(x.Results) == 1 && len(f.res) > 1 {
+		if len(x.Results) == 1 && len(f.resAll) > 1 {
 			// return f(...) with several results
 			if c, ok := x.Results[0].(*ast.CallExpr); ok {
-				vals := f.multi(c, len(f.res))
+				all := f.multi(c, len(f.resAll))
+				var vals []string
+				for i, v := range all {
+					if !f.erased[i] {
+						vals = append(vals, v)
+					}
+				}
 				f.ret(vals)
 				return
 			}
 		}
-		if len(x.Results) != len(f.res) {
-			trFail("return with %d values, %d expected", len(x.Results), len(f.res))
+		if len(x.Results) != len(f.resAll) {
+			trFail("return with %d values, %d expected", len(x.Results), len(f.resAll))
+		}
+		var kept []ast.Expr
+		for i, r := range x.Results {
+			if !f.erased[i] {
+				kept = append(kept, r)
+			}
 		}
 		var vals []string
-		for i, r := range x.Results {
+		for i, r := range kept {
 			if isNilIdent(r) {
 				vals = append(vals, zeroOf(f.res[i]))
 				continue
@@ -247,6 +259,8 @@ func (f *fnCtx) stmt(s ast.Stmt, rest func()) {
 		f.ifStmt(x, rest)
 	case *ast.SwitchStmt:
 		f.switchStmt(x, rest)
+	case *ast.TypeSwitchStmt:
+		f.typeSwitchStmt(x, rest)
 	case *ast.ForStmt:
 		f.forStmt(x, rest)
 	case *ast.RangeStmt:
@@ -496,7 +510,9 @@ func (f *fnCtx) ifStmt(x *ast.IfStmt, rest func()) {
 	if f.joinIf(x, cond, rest) {
 		return
 	}
-	if !terminates(x.Body) && (x.Else == nil || !terminates(x.Else)) {
+	if !terminates(x.Body) && (x.Else == nil || !terminates(x.Else)) && len(loopStack) == 0 {
+		// (inside a loop body the continuation may `continue`, i.e. call the loop's own definition: it is duplicated
+		// into the branches instead of becoming a definition of its own)
 		rest = f.joinPoint(rest)
 	}
 	saved := loopStack
@@ -584,6 +600,97 @@ func (f *fnCtx) switchStmt(x *ast.SwitchStmt, rest func()) {
 		return
 	}
 	doSwitch()
+}
+
+// typeSwitchStmt: `switch [v :=] path.(type) { case *T: … default: … }` over an opaque object: a chain of tests of the
+// object's `is_T` fields; in a single-type clause the bound variable is the object seen `as_T`
+func (f *fnCtx) typeSwitchStmt(x *ast.TypeSwitchStmt, rest func()) {
+	if x.Init != nil {
+		trFail("type switch with an init statement")
+	}
+	var ta *ast.TypeAssertExpr
+	var bound *ast.Ident
+	switch a := x.Assign.(type) {
+	case *ast.ExprStmt:
+		ta, _ = a.X.(*ast.TypeAssertExpr)
+	case *ast.AssignStmt:
+		if len(a.Lhs) == 1 && len(a.Rhs) == 1 {
+			bound, _ = a.Lhs[0].(*ast.Ident)
+			ta, _ = a.Rhs[0].(*ast.TypeAssertExpr)
+		}
+	}
+	if ta == nil {
+		trFail("type switch guard")
+	}
+	f.bindIndexRoots(ta.X)
+	p, args, ok := f.pathOf(ta.X)
+	if !ok || args != nil {
+		trFail("type switch over %s", f.src(ta.X))
+	}
+	var clauses []*ast.CaseClause
+	var deflt *ast.CaseClause
+	for _, c := range x.Body.List {
+		cc := c.(*ast.CaseClause)
+		if cc.List == nil {
+			deflt = cc
+		} else {
+			clauses = append(clauses, cc)
+		}
+	}
+	outer := loopStack
+	inSwitch := func(body []ast.Stmt, cc *ast.CaseClause, single string) {
+		cont := func() { trFail("continue outside a loop") }
+		if len(outer) > 0 {
+			cont = outer[len(outer)-1].cont
+		}
+		saved := loopStack
+		loopStack = append(append([]loopCtx{}, outer...), loopCtx{brk: rest, cont: cont})
+		if bound != nil && bound.Name != "_" {
+			if o := f.info.Implicits[cc]; o != nil {
+				segs := append([]string{}, p.segs...)
+				if single != "" {
+					segs = append(segs, "as_"+single)
+				}
+				f.alias[o] = pathVal{root: p.root, st: p.st, segs: segs}
+			}
+		}
+		f.block(body, rest)
+		loopStack = saved
+	}
+	var chain func(i int)
+	chain = func(i int) {
+		if i == len(clauses) {
+			if deflt != nil {
+				inSwitch(deflt.Body, deflt, "")
+			} else {
+				rest()
+			}
+			return
+		}
+		cc := clauses[i]
+		var conds []string
+		single := ""
+		for _, e := range cc.List {
+			if isNilIdent(e) {
+				trFail("case nil in a type switch")
+			}
+			tn := sanitize(strings.TrimPrefix(exprFull(e), "*"))
+			field := strings.Join(append(append([]string{}, p.segs...), "is_"+tn), "_")
+			f.g.field(p.st, field, "Bool", "")
+			conds = append(conds, f.nameOf(p.root)+"."+field)
+			single = tn
+		}
+		if len(cc.List) != 1 {
+			single = ""
+		}
+		thenL := f.capture(func() { inSwitch(cc.Body, cc, single) })
+		elseL := f.capture(func() { chain(i + 1) })
+		f.emit("if " + strings.Join(conds, " || ") + " then")
+		f.lines = append(f.lines, indent(paren(thenL))...)
+		f.emit("else")
+		f.lines = append(f.lines, indent(paren(elseL))...)
+	}
+	chain(0)
 }
 
 // joinPoint: the code after a statement that is reached from several places (loop exit, break, both branches of an if
@@ -708,6 +815,8 @@ func (f *fnCtx) rangeStmt(x *ast.RangeStmt, rest func()) {
 		elem = "Go.Coin"
 	case kOList:
 		elem = k.opaque
+	case kStrs:
+		elem = "String"
 	default:
 		trFail("range over %s", k.lean)
 	}
@@ -820,6 +929,64 @@ func (g *gen) classifySafe(t types.Type) (k lty) {
 	return g.classify(t)
 }
 
+// exprSrc: exprFull that also renders composite literals (field by field)
+func exprSrc(e ast.Expr) string {
+	switch t := e.(type) {
+	case *ast.UnaryExpr:
+		return t.Op.String() + exprSrc(t.X)
+	case *ast.KeyValueExpr:
+		return exprSrc(t.Key) + ": " + exprSrc(t.Value)
+	case *ast.CompositeLit:
+		var es []string
+		for _, x := range t.Elts {
+			es = append(es, exprSrc(x))
+		}
+		return exprFull(t.Type) + "{" + strings.Join(es, ", ") + "}"
+	case *ast.BinaryExpr:
+		return exprSrc(t.X) + t.Op.String() + exprSrc(t.Y)
+	case *ast.CallExpr:
+		var as []string
+		for _, a := range t.Args {
+			as = append(as, exprSrc(a))
+		}
+		return exprFull(t.Fun) + "(" + strings.Join(as, ",") + ")"
+	}
+	return exprFull(e)
+}
+
+// derivedObject: see bind
+func (f *fnCtx) derivedObject(rhs ast.Expr) (pathVal, bool) {
+	var what string
+	e := rhs
+	if u, ok := e.(*ast.UnaryExpr); ok && u.Op == token.AND {
+		e = u.X
+	}
+	switch x := e.(type) {
+	case *ast.CompositeLit:
+		what = "lit_" + sanitize(strings.TrimPrefix(exprFull(x.Type), "*"))
+	case *ast.CallExpr:
+		fn := f.calleeFunc(x)
+		if fn == nil || fn.Type().(*types.Signature).Recv() != nil {
+			return pathVal{}, false
+		}
+		what = "new_" + fn.Name()
+	default:
+		return pathVal{}, false
+	}
+	if len(f.params) == 0 {
+		return pathVal{}, false
+	}
+	root := f.params[0]
+	st, isRoot := f.roots[root]
+	if !isRoot {
+		return pathVal{}, false
+	}
+	src := strings.Join(strings.Fields(exprSrc(rhs)), " ")
+	seg := what + "_" + shortHash(src)
+	f.g.opaqueC = append(f.g.opaqueC, f.lean+": object "+seg+" = "+src)
+	return pathVal{root: root, st: st, segs: []string{seg}}, true
+}
+
 // bind: `lhs := rhs` / `lhs = rhs` for one value
 func (f *fnCtx) bind(lhs ast.Expr, rhs ast.Expr, define bool) {
 	if id, ok := lhs.(*ast.Ident); ok && id.Name != "_" {
@@ -830,6 +997,14 @@ func (f *fnCtx) bind(lhs ast.Expr, rhs ast.Expr, define bool) {
 				f.bindIndexRoots(rhs)
 				p, args, ok := f.pathOf(rhs)
 				if !ok || args != nil {
+					// an object the function builds itself — a composite literal, or the result of a package function the
+					// translator does not interpret: an object *named by its construction*.  The name (with a hash of the
+					// source text of the construction) becomes part of every accessor and effect that receives the object,
+					// and the construction is listed among the uninterpreted items (pinned by Facts/TieMeta).
+					if dp, ok := f.derivedObject(rhs); ok {
+						f.alias[o] = dp
+						return
+					}
 					trFail("opaque local %s bound to %s", id.Name, f.src(rhs))
 				}
 				f.alias[o] = p
@@ -940,13 +1115,7 @@ func (f *fnCtx) multi(c *ast.CallExpr, n int) []string {
 	}
 	if id, ok := c.Fun.(*ast.Ident); ok {
 		if o, ok := f.localVar(id); ok && f.g.classify(o.Type()).k == kFunc {
-			var as []string
-			for _, a := range c.Args {
-				as = append(as, f.atom(f.expr(a)))
-			}
-			if len(as) == 0 {
-				as = []string{"()"}
-			}
+			as := f.callbackArgs(c)
 			var ts []string
 			for i := 0; i < n; i++ {
 				ts = append(ts, f.tmp())
@@ -958,8 +1127,55 @@ func (f *fnCtx) multi(c *ast.CallExpr, n int) []string {
 	if vals, ok := f.opaqueCall(c, n); ok {
 		return vals
 	}
+	// a method of an opaque object with several results (cd.AnteHandle(ctx, tx, simulate, next)): an accessor whose
+	// value is the tuple of results, objects among them being Unit
+	if p, args, ok := f.pathOf(c); ok {
+		if tv, ok := f.info.Types[c]; ok {
+			if tup, isTup := tv.Type.(*types.Tuple); isTup && tup.Len() == n {
+				var ts []string
+				for i := 0; i < n; i++ {
+					k := f.g.classifySafe(tup.At(i).Type())
+					switch k.k {
+					case kOpaque, kOList, kUnit:
+						ts = append(ts, "Unit")
+					case kFunc:
+						trFail("function result of %s", f.src(c))
+					default:
+						ts = append(ts, k.lean)
+					}
+				}
+				rt := lty{k: kStr, lean: "(" + strings.Join(ts, " × ") + ")"}
+				if sel, ok := c.Fun.(*ast.SelectorExpr); ok && effectful[sel.Sel.Name] {
+					f.effect(f.nameOfRootGo(p.root)+"."+strings.Join(p.segs, "."), nil)
+				}
+				term := f.pathValue(p, args, rt, c)
+				var vs []string
+				for range ts {
+					vs = append(vs, f.tmp())
+				}
+				f.emit("let (" + strings.Join(vs, ", ") + ") := " + term)
+				return vs
+			}
+		}
+	}
 	trFail("multi-value call %s", f.src(c))
 	return nil
+}
+
+// callbackArgs: the value arguments of a call of a callback parameter (objects are dropped, see classify)
+func (f *fnCtx) callbackArgs(c *ast.CallExpr) []string {
+	var as []string
+	for _, a := range c.Args {
+		ak := f.g.classifySafe(f.typeOf(a))
+		if ak.k == kOpaque || ak.k == kOList {
+			continue
+		}
+		as = append(as, f.atom(f.expr(a)))
+	}
+	if len(as) == 0 {
+		as = []string{"()"}
+	}
+	return as
 }
 
 func (f *fnCtx) calleeFunc(c *ast.CallExpr) *types.Func {
@@ -1271,9 +1487,20 @@ func (f *fnCtx) function() (string, *fnSig) {
 	for i := 0; i < ft.Results().Len(); i++ {
 		r := ft.Results().At(i)
 		k := f.g.classify(r.Type())
-		if k.k == kOpaque || k.k == kFunc {
-			trFail("result of opaque type %s", k.lean)
+		if k.k == kFunc {
+			trFail("result of function type %s", k.lean)
 		}
+		f.resAll = append(f.resAll, k)
+		if k.k == kOpaque || k.k == kOList {
+			// an object handed back to the caller (the context, a response message) is erased from the Lean result:
+			// what the function decides is carried by its value results and its effect log
+			if !f.tgt.EraseObj {
+				trFail("result of opaque type %s", k.lean)
+			}
+			f.erased = append(f.erased, true)
+			continue
+		}
+		f.erased = append(f.erased, false)
 		f.res = append(f.res, k)
 		resT = append(resT, k.lean)
 		if r.Name() != "" && r.Name() != "_" {
